@@ -24,7 +24,7 @@ RULE = ("1-8 timer systems with start in [-12,50] or far future, end in {forever
 COMPONENTS = {"real": ["ECAgent.Core.SystemManager.execute_systems (activation predicate, clock)", "ECAgent.Core.Model.execute",
                        "Model.timestep forwarding"],
               "stub": ["System.execute bodies are harness recorders"]}
-PROBES = ["fired_at_end", "silent_after_end", "negative_start", "end_before_start", "late_registration_out_of_phase",
+PROBES = ["invalid_n_on_a_finished_model", "fired_at_end", "silent_after_end", "negative_start", "end_before_start", "late_registration_out_of_phase",
           "late_registration_in_phase", "bad_n_rejected", "freq_beyond_horizon", "bare_execute_systems", "reregistered_after_removal", "registered_from_inside_a_step",
           "registered_inside_multi_step_request", "str_subclass_id", "numpy_int_window", "falsy_systems", "system_failure_reached_the_caller", "systems_returning_values_from_execute", "run_continued_on_a_deep_copy",
           "window_of_a_registered_system_edited_in_place", "clock_put_back"]
@@ -126,7 +126,9 @@ def generate(rng, tier):
     for s in systems:
         if rng.random() < 0.12:      # window bounds that are numpy integers (taken out of an array, say)
             s["np"] = rng.choice([["start"], ["start"], ["start", "end"], ["freq"], ["start", "end", "freq"], ["end"]])
-    return dict({"systems": systems, "ops": ops, "spawns": spawns, "raises": raises}, **gen_flavour(rng))
+    out = dict({"systems": systems, "ops": ops, "spawns": spawns, "raises": raises}, **gen_flavour(rng))
+    out["finish_then_bad"] = rng.random() < 0.25     # arguments are validated whatever state the model is in
+    return out
 
 
 class SID(str):
@@ -210,6 +212,7 @@ def execute(sc, ctx):
             # only the scripted failure may escape, and it must be the very exception the system raised
             ctx.check(w.raised and isinstance(v, RAISES[w.raises["exc"]]), f"{how}:unexpected-exception", f"{type(v).__name__}: {v}")
             ctx.probe("system_failure_reached_the_caller")
+            w.request_failed = True
             return True      # what a failed request leaves behind is not constrained: the scenario ends here
         if w.raised:
             ctx.probe("system_failure_swallowed_by_the_scheduler")
@@ -370,6 +373,17 @@ def execute(sc, ctx):
             ctx.check(len(w.log) == before, "bad-n-executed", f"execute({v!r}) ran systems")
             check_clock(f"after rejected execute({v!r})")
         ctx.state([ref.t % 12, sorted((s["start"] % 12, s["freq"], min(s["end"], 99)) for s in ref.q)])
+    if sc.get("finish_then_bad") and not getattr(w, "request_failed", False):
+        # the model is finished (from outside); a step request with an invalid n is still an invalid request
+        ctx.probe("invalid_n_on_a_finished_model")
+        ctx.expect_ok("complete", m.complete)
+        for name_ in sorted(BAD):
+            v, exc = BAD[name_]
+            before = len(w.log)
+            ctx.fault("reject.bad_n")
+            ctx.expect_raises("bad-n-finished-model", exc, m.execute, v)
+            ctx.check(len(w.log) == before, "bad-n-executed", f"execute({v!r}) on the finished model ran systems")
+            check_clock(f"after rejected execute({v!r}) on the finished model")
     periodic = any(s["start"] != 0 and s["freq"] > 1 and fired.get(s["id"], 0) >= 2 for s in ref.q)
     ctx.nontrivial = periodic and late
     ctx.sig = [sorted([s["start"], min(s["end"] - s["start"], 99), s["freq"]] for s in ref.q), advs]
